@@ -6,6 +6,13 @@
 (*   reset   {n}                 keys are 1..n                             *)
 (*   cmd     {k, c, x, v, sc, exp, err, b, n, vres, tname}                 *)
 (*   restart {err}               Close + NewDataTypeService                *)
+(*   crashed {k, c, x, v, sc, exp}  the process died at an I/O call        *)
+(*                               boundary inside this command; the run     *)
+(*                               continues on the directory image: the     *)
+(*                               command took effect entirely or not at    *)
+(*                               all (every update is one batch, C04), so  *)
+(*                               the key is in its state before or in a    *)
+(*                               state the command may leave               *)
 (***************************************************************************)
 EXTENDS DTSem, Json
 CONSTANTS TraceFile, Enforce
@@ -32,7 +39,11 @@ TCmd == /\ Is("cmd") /\ l' = l + 1
               ELSE \E p \in match : abs' = [abs EXCEPT ![e.k] = p[2]]
 TRestart == /\ Is("restart") /\ l' = l + 1 /\ UNCHANGED abs
             /\ (IF Chk("types") /\ E.err # "ok" THEN Fail("restart") ELSE TRUE)
-Next == TReset \/ TCmd \/ TRestart
+TCrashed == /\ Is("crashed") /\ l' = l + 1
+            /\ LET e == E
+                   cmd == [c |-> e.c, x |-> e.x, v |-> e.v, sc |-> e.sc, exp |-> e.exp]
+               IN \E s \in {abs[e.k]} \cup {p[2] : p \in Exec(abs[e.k], cmd)} : abs' = [abs EXCEPT ![e.k] = s]
+Next == TReset \/ TCmd \/ TRestart \/ TCrashed
 Spec == Init /\ [][Next]_vars
 ASSUME TLCSet(1, 0)
 HW == IF l > TLCGet(1) THEN TLCSet(1, l) ELSE TRUE
